@@ -11,7 +11,7 @@ CHECKS = {
    "DESIGN.md §6 C12, §4.3"),
  "C14": ("model_checking",
    "bounded-exhaustive enumeration of segment words × IFS settings against a reference splitter",
-   "Every word of up to 6 (quick) / 7 (thorough) segments over the 8 segment kinds of the statement, under 11 IFS settings (incl. letters and characters from the upper half of ASCII) and 3 realisations (literal parts, parameter expansions, single quotes), is expanded by the real Expand and compared with a splitter written from the statement; additionally histories on ONE environment: every sequence of ≤ 3 (thorough 4) IFS settings with 5 probe words expanded after each change, and every pair (IFS1, probe) then (IFS2, word ≤ 3 characters over {a space , : é tab}). Complete within those bounds.",
+   "Every word of up to 6 (quick) / 7 (thorough) segments over the 8 segment kinds of the statement, under 11 IFS settings (incl. letters and characters from the upper half of ASCII) and 3 realisations, 9 segment kinds incl. an unknown tilde-prefix, words of 1-40 repetitions of 9 units, (literal parts, parameter expansions, single quotes), is expanded by the real Expand and compared with a splitter written from the statement; additionally histories on ONE environment: every sequence of ≤ 3 (thorough 4) IFS settings with 5 probe words expanded after each change, and every pair (IFS1, probe) then (IFS2, word ≤ 3 characters over {a space , : é tab}). Complete within those bounds.",
    "Trusts the reference splitter (c14Ref); words are built as AST values with NoGlob set; longer words and other IFS values are outside the bound.",
    "DESIGN.md §6 C14, §4.2"),
  "C11": ("model_checking",
@@ -26,17 +26,17 @@ CHECKS = {
    "DESIGN.md §6 C13, §4.2"),
  "C15": ("model_checking",
    "bounded-exhaustive enumeration of strings × quoting styles × modes × environments with an intrinsic oracle",
-   "Every string of up to 4 (quick) / 5 (thorough) characters over 20 shell-significant characters (incl. / . CR TAB) is written under single, double, backslash and mixed quoting, parsed by the real parser and expanded under all 6 ExpModes in 4 adversarial environments (IFS from the alphabet, HOME, positional parameters, a scratch working directory holding files named like the strings); the result must be exactly one field equal to the string, in Pattern mode a pattern whose elements are all literal and which, given to pattern.Match, matches the string itself and none of its neighbours (also for every string of ≤ 5 characters over three families of regexp metacharacters).",
+   "Every string of up to 4 (quick) / 5 (thorough) characters over 20 shell-significant characters (incl. / . CR TAB) is written under single, double, backslash and mixed quoting, parsed by the real parser and expanded under all 6 ExpModes in 5 adversarial environments (IFS from the alphabet, HOME, positional parameters, a scratch working directory holding files named like the strings); the result must be exactly one field equal to the string, in Pattern mode a pattern whose elements are all literal and which, given to pattern.Match, matches the string itself and none of its neighbours (also for every string of ≤ 5 characters over three families of regexp metacharacters).",
    "Backslash-newline excluded from the backslash style; Pattern mode judged by the pattern model of C12; longer strings / other characters outside the bound.",
    "DESIGN.md §6 C15"),
  "C16": ("model_checking",
    "bounded-exhaustive enumeration of directory trees × patterns against a reference walk",
-   "Every tree of ≤ 2 entries (7 names × 7 kinds incl. dot files, dangling symlinks, symlinked directories, names with pattern characters and multi-byte) and every 3-entry tree over a reduced kind set is built in a scratch directory and globbed with every pattern of ≤ 3 (quick) / 4 (thorough) symbols over {a b * ? [ ] . / \\} plus absolute and multi-level shapes; the result must equal a component-wise walk with the reference matcher: same paths, sorted, no duplicates, all existing.",
+   "Every tree of ≤ 2 entries (9 names incl. names with a backslash × 7 kinds incl. dot files, dangling symlinks, symlinked directories, names with pattern characters and multi-byte) and every 3-entry tree over a reduced kind set is built in a scratch directory and globbed with every pattern of ≤ 3 (quick) / 4 (thorough) symbols over {a b * ? [ ] . / \\} plus absolute (also with an escaped leading separator), multi-level and escaped-component shapes, and a large tree (12 files and 12 directories per level, four levels) with 33 patterns; the result must equal a component-wise walk with the reference matcher: same paths, sorted, no duplicates, all existing.",
    "File-system primitives (Lstat/Stat/ReadDir) are taken as facts; patterns with an ill-formed component only must not panic; absolute patterns are explored under the scratch root only.",
    "DESIGN.md §6 C16, §4.3"),
  "C20": ("model_checking",
    "explicit-state BFS over operation histories of the real ExecEnv against a map model",
-   "Breadth-first search to depth 4 (quick) / 6 (thorough) from 8 initial environments over an alphabet of ≈ 245 Set/Unset/Expand/Eval operations (Eval incl. short-circuit forms whose skipped operand assigns or faults; Expand incl. 30 composite forms ${a op INNER} whose word assigns, fails or does neither, and 6 words in which the assigning expansion is surrounded by other text); second phase without state merging: every history of ≤ 4 (thorough 5) operations over a reduced alphabet in which the observation is itself an operation on ordinary, special and positional names; every operation is applied in every distinct reachable store state (successor = replay of the shortest history on a fresh instance + 1 operation); after every transition Walk, Get of 17 names, Args, Opts, Aliases and the AST passed in are compared with a plain map model.",
+   "Breadth-first search to depth 4 (quick) / 6 (thorough) from 8 initial environments over an alphabet of ≈ 245 Set/Unset/Expand/Eval operations (Eval incl. short-circuit forms whose skipped operand assigns or faults; Expand incl. 30 composite forms ${a op INNER} whose word assigns, fails or does neither, 6 words in which the assigning expansion is surrounded by other text, removal operators whose pattern assigns, tilde words with HOME set/unset); many-variable histories (1-24 names); second phase without state merging: every history of ≤ 4 (thorough 5) operations over a reduced alphabet in which the observation is itself an operation on ordinary, special and positional names; every operation is applied in every distinct reachable store state (successor = replay of the shortest history on a fresh instance + 1 operation); after every transition Walk, Get of 17 names, Args, Opts, Aliases and the AST passed in are compared with a plain map model.",
    "Trusts the map model; canonical state drops Export/ReadOnly (no operation of the alphabet observes them); process environment cleared so NewExecEnv starts from {IFS}.",
    "DESIGN.md §6 C20, §2 E3"),
  "C02": ("model_checking",
@@ -56,17 +56,17 @@ CHECKS = {
    "DESIGN.md §6 C04"),
  "C06": ("model_checking",
    "stateless model checking of the implementation: controlled scheduler + DFS over all interleavings of the hooked lexer/parser goroutine operations",
-   "go.sh is built with -tags verif; every synchronisation operation between the parser and its lexer goroutines (token hand-off including both outcomes of an ambiguous select, cancel, here-document queue, nested lexer join, error slots, return of the call) is a point owned by a cooperative scheduler. For every ParseCommands input of ≤ 3 (quick) / 4 (thorough) pieces over a 15-piece alphabet (incl. a numbered here-document whose delimiter never comes), 15 longer inputs (preemption bound ≤ 2), the generator's lists of leaf commands and default-filled compounds with each single-symbol deletion (preemption bound ≤ 1), every input of ≤ 2 (thorough 3) pieces plus 14 nested-substitution inputs with the reader failing from / once at every rune index, and every Eval input of ≤ 4 / 5 tokens over a 12-token alphabet plus 23 longer ones, ALL schedules are enumerated (≈ 7·10^4 executions, 8·10^5 transitions in the quick tier): one result per input, no deadlock, nothing alive or active after the return. Schedules are replayed for determinism; a free-running pass (GOMAXPROCS 1/2/16) must only produce explored results, and the same bodies run under the race detector, which also runs 484 ordered pairs of calls concurrently (results equal to the solo results; shared package-level state shows as a race).",
+   "go.sh is built with -tags verif; every synchronisation operation between the parser and its lexer goroutines (token hand-off including both outcomes of an ambiguous select, cancel, here-document queue, nested lexer join, error slots, return of the call) is a point owned by a cooperative scheduler. For every ParseCommands input of ≤ 3 (quick) / 4 (thorough) pieces over a 15-piece alphabet (incl. a numbered here-document whose delimiter never comes), 15 longer inputs (preemption bound ≤ 2), the generator's lists of leaf commands and default-filled compounds with each single-symbol deletion (preemption bound ≤ 1), every input of ≤ 2 (thorough 3) pieces plus 14 nested-substitution inputs with the reader failing from / once at every rune index, and every Eval input of ≤ 4 / 5 tokens over a 12-token alphabet plus 23 longer ones (faults met while the lexer is about to reject a later character, short-circuit operands), ALL schedules are enumerated (≈ 7·10^4 executions, 8·10^5 transitions in the quick tier): one result per input, no deadlock, nothing alive or active after the return. Schedules are replayed for determinism; a free-running pass (GOMAXPROCS 1/2/16) must only produce explored results, and the same bodies run under the race detector, which also runs 484 ordered pairs of calls concurrently (results equal to the solo results; shared package-level state shows as a race).",
    "The controller owns the hooked operations only: unhooked unsynchronised accesses and memory-model effects are seen by the supplementary -race pass alone; executions per input are capped (20 000 / 200 000).",
    "DESIGN.md §6 C06, §2 E2, §3"),
  "C07": ("model_checking",
    "explicit-state search over command streams (state = reader offset, transition = one ParseCommands call)",
-   "Every stream that concatenates ≤ 3 (quick) / 4 (thorough) commands from a 75-entry menu (single-line, multi-line compound, here-documents in every position incl. <<- and quoted delimiters, trailing comments, line continuations, blank lines, multi-line quotes/substitutions), each also with the last command lacking its final newline, and every generator derivation (D0, D1, DH, DC, word menu; two layouts) as first command followed by each of 5 continuations, is read by successive ParseCommands calls from a strings.Reader and a custom RuneScanner; after every call the offset must be the (constructed) end of that command and the result must equal the result of parsing that command's text alone; blank lines give empty results.",
+   "Every stream that concatenates ≤ 3 (quick) / 4 (thorough) commands from an 83-entry menu (single-line, multi-line compound, here-documents in every position incl. <<- and quoted delimiters, trailing comments, line continuations, blank lines, multi-line quotes/substitutions), each also with the last command lacking its final newline, and every generator derivation (D0, D1, DH, DC, word menu; two layouts) as first command followed by each of 5 continuations, is read by successive ParseCommands calls from a strings.Reader and a custom RuneScanner; after every call the offset must be the (constructed) end of that command and the result must equal the result of parsing that command's text alone; blank lines give empty results.",
    "Command boundaries are known by construction; comment-only lines are excluded (pinned by go.sh's own tests); streams beyond the menu are not explored.",
    "DESIGN.md §6 C07, §2 E3"),
  "C08": ("model_checking",
    "stateless model checking of the implementation (controlled scheduler + DFS) over a bounded-exhaustive space of here-document programs",
-   "42 host templates with 1-3 here-document sites (simple command, pipes, lists, every compound form, function bodies, compound redirections, inside $( ) and backquotes, before && / | + newline, numbered, several on one or on different lines) × {<<, <<- with 0-3 tabs before the delimiter line} × 4 delimiter quotings × bodies from a 16-line menu (empty lines, delimiter look-alikes, tab-indented lines, $v, $(c), `c`, backslashes, lines ending in the delimiter text after an expansion): ≈ 5·10^4 programs in the quick tier, each run under ALL schedules of the lexer/parser pair (one site) or all schedules with ≤ 1 preemption (more sites, which contains both extreme schedules). Per redirection, in operator order: the printed body is byte-identical to the body written, Delim is the delimiter line, the body is split into expansions iff no part of the delimiter was quoted; the same under every schedule; no deadlock on the here-document queue. Second phase: every generator sentence that carries a here-document (D0, D1, DH; thorough D2, DC) in one-line and multi-line layout under all schedules with ≤ 1 preemption, judged against the grammar model's AST.",
+   "45 host templates with 1-3 here-document sites (simple command, pipes, lists, every compound form, function bodies, compound redirections, inside $( ) and backquotes, before && / | + newline, numbered, several on one or on different lines) × {<<, <<- with 0-3 tabs before the delimiter line} × 6 delimiter quotings (E, 'E', "E", E\\F, E"", ''E) × bodies from a 17-line menu (empty lines, delimiter look-alikes, tab-indented lines, $v, $(c), `c`, backslashes, lines ending in the delimiter text after an expansion): ≈ 5·10^4 programs in the quick tier, each run under ALL schedules of the lexer/parser pair (one site) or all schedules with ≤ 1 preemption (more sites, which contains both extreme schedules). Per redirection, in operator order: the printed body is byte-identical to the body written, Delim is the delimiter line, the body is split into expansions iff no part of the delimiter was quoted; the same under every schedule; no deadlock on the here-document queue. Many-site programs (4-12 here-documents on one line, per group line, per pipeline stage). Second phase: every generator sentence that carries a here-document (D0, D1, DH; thorough D2, DC) in one-line and multi-line layout under all schedules with ≤ 1 preemption, judged against the grammar model's AST.",
    "Backslash-newline inside bodies is outside the alphabet; scheduler assumptions as for C06.",
    "DESIGN.md §6 C08, §2 E2"),
  "C09": ("model_checking",
@@ -76,12 +76,12 @@ CHECKS = {
    "DESIGN.md §6 C09"),
  "C10": ("fault_enumeration",
    "complete enumeration of single read-fault positions over a bounded-exhaustive sentence set",
-   "For every accepted sentence among all strings of ≤ 3 (quick) / 4 (thorough) symbols over a 43-symbol alphabet and the derivation sets D0, D1, word menu (thorough: D2) in two layouts, the source reader is made to fail from every rune index k in [0, len], as io.RuneScanner, as io.Reader and as io.RuneScanner whose error wraps io.EOF; if the fault was delivered (or k lies inside the consumed text) the error must satisfy errors.Is(err, sentinel), and a nil error is only allowed with the fault-free result. Additionally every sentence of the string space that the parser rejects, and every accepted one under a transient (one-shot) fault, at every k: the call must return with a non-nil error that is the read error or a parser.Error.",
+   "For every accepted sentence among all strings of ≤ 3 (quick) / 4 (thorough) symbols over a 43-symbol alphabet and the derivation sets D0, D1, word menu (thorough: D2) in two layouts, the source reader is made to fail from every rune index k in [0, len], as io.RuneScanner, as io.Reader (also at every byte offset inside a multi-byte character) and as io.RuneScanner whose error wraps io.EOF; if the fault was delivered (or k lies inside the consumed text) the error must satisfy errors.Is(err, sentinel), and a nil error is only allowed with the fault-free result. Additionally every sentence of the string space that the parser rejects, and every accepted one under a transient (one-shot) fault, at every k: the call must return with a non-nil error that is the read error or a parser.Error.",
    "For io.Reader delivery to the parser is hidden behind bufio, so the rule is phrased on k versus the fault-free consumption; multiple faults are not explored.",
    "DESIGN.md §6 C10, §2 E4"),
  "C17": ("model_checking",
    "bounded-exhaustive enumeration of alias tables × symbol strings against a reference replacement",
-   "Every alias table with ≤ 2 entries (thorough: ≤ 3) over 3 names and a 25-value menu (chains, cycles, self reference, trailing blanks, operators, reserved words, assignments, redirections, quoted names, values holding two commands that are aliases, values containing $( ), backquote, $(( )) and ${ } expansions) plus 8 fixed three-entry chains and 140 three-entry tables whose outer value holds several commands that are aliases × every string of ≤ 3 (thorough: ≤ 4) symbols over a 13-symbol alphabet: the reference model performs the textual replacement on the symbol string (command-name positions from the grammar model, recursion guard, trailing-blank rule, cross-checked against bash and dash), the unfolded text is parsed by the real parser without aliases and must give the same position-free AST; every run terminates. Also: command substitutions in the source ($( ), backquotes, inside double quotes and ${v:-…}) holding every command list of ≤ 2 symbols over {x y a ; | 'x'} and 5 compound forms, for every table of ≤ 2 entries; and, at text level, one alias whose value is every string of ≤ 3 (thorough 4) characters over 19 significant characters × 6 continuations of the source, compared with the parse of the text in which the word is replaced.",
+   "Every alias table with ≤ 2 entries (thorough: ≤ 3) over 3 names and a 25-value menu (the reference replacement descends into $( ) and backquote tokens of values) (chains, cycles, self reference, trailing blanks, operators, reserved words, assignments, redirections, quoted names, values holding two commands that are aliases, values containing $( ), backquote, $(( )) and ${ } expansions) plus 8 fixed three-entry chains and 140 three-entry tables whose outer value holds several commands that are aliases × every string of ≤ 3 (thorough: ≤ 4) symbols over a 13-symbol alphabet: the reference model performs the textual replacement on the symbol string (command-name positions from the grammar model, recursion guard, trailing-blank rule, cross-checked against bash and dash), the unfolded text is parsed by the real parser without aliases and must give the same position-free AST; every run terminates. Also: command substitutions in the source ($( ), backquotes, inside double quotes and ${v:-…}) holding every command list of ≤ 2 symbols over {x y a ; | 'x'} and 5 compound forms, for every table of ≤ 2 entries; and, at text level, one alias whose value is every string of ≤ 3 (thorough 4) characters over 19 significant characters × 6 continuations of the source (alias names x, x-1, .., 2x, ,x, x+), compared with the parse of the text in which the word is replaced.",
    "Only the substitution is modelled, the unfolded text goes through the real parser; alias values with newlines are covered for termination only (C01).",
    "DESIGN.md §6 C17"),
  "C01": ("model_checking",
@@ -101,7 +101,7 @@ CHECKS = {
    "DESIGN.md §6 C18"),
  "C19": ("model_checking",
    "bounded-exhaustive enumeration of inputs per entry point in crash-isolated worker processes",
-   "Every AST the parser returns for the C01 corpora and for the derivation sets (D0-D2, DH, DC, word menu, generated word space WG at 5 positions; two layouts) is measured (Pos/End of every node), printed under 16 (quick) / 256 Configs and every distinct word in it expanded under all 32 combinations of the mode flags; every token string of ≤ 4 / 5 tokens over a 20-token alphabet goes through Eval, every pattern of ≤ 4 / 5 characters over 12 pattern characters through Match (6 subjects, mode combinations) and over 9 characters through Glob; all 2^14 Option values; nesting depths 1-40 × 12 indentation styles; all under GODEBUG=panicnil=0 and =1. No panic, no process death, only documented error types.",
+   "Every AST the parser returns for the C01 corpora and for the derivation sets (D0-D2, DH, DC, word menu, generated word space WG at 5 positions; two layouts) is measured (Pos/End of every node), printed under 16 (quick) / 256 Configs and every distinct word in it expanded under all 32 combinations of the mode flags; every token string of ≤ 4 / 5 tokens over a 20-token alphabet goes through Eval, every pattern of ≤ 4 / 5 characters over 12 pattern characters through Match (6 subjects, mode combinations) and over 9 characters through Glob; all 2^14 Option values; the repetition family (45 constructs × n = 1…24); nesting depths 1-40 × 12 indentation styles; all under GODEBUG=panicnil=0 and =1. No panic, no process death, only documented error types.",
    "Oracle is 'terminates without panic, documented error types'; values are C11-C16's subject.",
    "DESIGN.md §6 C19"),
 }
